@@ -174,7 +174,7 @@ def code_to_spec(ctx, csv, ncases):
             ncol = int(rng.integers(1, 6))
             nrow = int(rng.integers(1, 9))
             cols = [str(c) for c in rng.choice(WORDS, size=ncol, replace=False)]
-            fmt, digits = [("%0.5f", 5), ("%0.2f", 2), ("%0.8e", None), ("%0.3f", 3)][int(rng.integers(0, 4))]
+            fmt, digits = [("%0.5f", 5), ("%0.2f", 2), ("%0.8e", None), ("%0.3f", 3), ("%0.8f", 8)][int(rng.integers(0, 5))]
             kinds, data, cells = [], {}, []
             for c in cols:
                 kd = str(rng.choice(["f", "i", "t"]))
@@ -184,7 +184,7 @@ def code_to_spec(ctx, csv, ncases):
                         v = rng.integers(-999, 1000, size=nrow) / 8.0          # exact in %0.8e
                         cells.append([int(round(x * 8)) for x in v])
                     else:
-                        v = rng.integers(-10 ** 6, 10 ** 6, size=nrow) / 10.0 ** digits * rng.choice([1, 1, 0.37])
+                        v = rng.integers(-10 ** 6, 10 ** 6, size=nrow) * (997 if digits == 8 else 1) / 10.0 ** digits * rng.choice([1, 1, 0.37])
                         cells.append([int(round(x * 10 ** digits)) for x in v])
                     data[c] = v.astype(float)
                 elif kd == "i":
